@@ -53,6 +53,7 @@ def main():
             patches.append(a)
         else:
             patches += sorted(glob.glob(os.path.join(a, "*", "patch.diff")))
+    patches = [os.path.abspath(p) for p in patches]
     with ThreadPoolExecutor(max_workers=jobs) as ex:
         res = list(ex.map(one, [(p, checks) for p in patches]))
     bad = 0
